@@ -21,10 +21,55 @@ pub enum Sm {
 	SubstChar(usize, usize),
 	/// a multi-byte UTF-8 character inserted before the position
 	InsChar(usize, usize),
+	/// (position, index into CASE_CHARS, k): k copies of a character whose case mapping changes its
+	/// byte length written over the k*len bytes at the position (the byte length of the text is kept)
+	CaseRun(usize, usize, usize),
 }
 
 /// 2-, 3- and 4-byte characters: the text stays valid UTF-8, but byte offsets stop being character boundaries
 pub const UTF8_CHARS: [&str; 3] = ["\u{e9}", "\u{3002}", "\u{1f600}"];
+
+/// characters whose upper- or lower-casing has another byte length than the character itself
+/// (sharp s -> SS, long s -> S, fi ligature -> FI, Kelvin sign -> k, dotted capital I -> i + combining dot):
+/// a text normalised by case mapping no longer has the length that was checked before (or after) the mapping
+pub const CASE_CHARS: [&str; 5] = ["\u{df}", "\u{17f}", "\u{fb01}", "\u{212a}", "\u{130}"];
+/// longest run of such characters
+pub const CASE_RUN_MAX: usize = 24;
+/// texts up to this length get a run at every position, longer ones at the start and at the end only
+pub const CASE_RUN_ALL_POS: usize = 160;
+
+/// all (position, character, run length) of the class over a text of n bytes, simplest first
+pub fn case_runs(n: usize) -> std::sync::Arc<Vec<(usize, usize, usize)>> {
+	use std::collections::HashMap;
+	use std::sync::{Arc, Mutex};
+	lazy_static::lazy_static! {
+		static ref CACHE: Mutex<HashMap<usize, Arc<Vec<(usize, usize, usize)>>>> = Mutex::new(HashMap::new());
+	}
+	let mut c = CACHE.lock().unwrap();
+	if let Some(v) = c.get(&n) {
+		return v.clone();
+	}
+	let mut v = vec![];
+	for k in 1..=CASE_RUN_MAX {
+		for (ci, ch) in CASE_CHARS.iter().enumerate() {
+			let l = k * ch.len();
+			if l > n {
+				continue;
+			}
+			if n <= CASE_RUN_ALL_POS {
+				for p in 0..=n - l {
+					v.push((p, ci, k));
+				}
+			} else {
+				v.push((0, ci, k));
+				v.push((n - l, ci, k));
+			}
+		}
+	}
+	let v = Arc::new(v);
+	c.insert(n, v.clone());
+	v
+}
 
 impl Sm {
 	pub fn apply(&self, b: &[u8]) -> Option<Vec<u8>> {
@@ -95,6 +140,19 @@ impl Sm {
 					None
 				}
 			}
+			Sm::CaseRun(p, c, k) => {
+				let l = k * CASE_CHARS[c].len();
+				if p + l <= b.len() {
+					let mut o = b[..p].to_vec();
+					for _ in 0..k {
+						o.extend_from_slice(CASE_CHARS[c].as_bytes());
+					}
+					o.extend_from_slice(&b[p + l..]);
+					Some(o)
+				} else {
+					None
+				}
+			}
 		}
 	}
 	pub fn describe(&self) -> String {
@@ -106,6 +164,7 @@ impl Sm {
 			Sm::Transp(p) => format!("swap bytes {} and {}", p, p + 1),
 			Sm::SubstChar(p, c) => format!("byte {} := the {}-byte character U+{:04X}", p, UTF8_CHARS[c].len(), UTF8_CHARS[c].chars().next().unwrap() as u32),
 			Sm::InsChar(p, c) => format!("insert the {}-byte character U+{:04X} before byte {}", UTF8_CHARS[c].len(), UTF8_CHARS[c].chars().next().unwrap() as u32, p),
+			Sm::CaseRun(p, c, k) => format!("bytes {}..{} := {} x U+{:04X} (case mapping changes its length)", p, p + k * CASE_CHARS[c].len(), k, CASE_CHARS[c].chars().next().unwrap() as u32),
 		}
 	}
 }
@@ -118,6 +177,7 @@ pub enum MClass {
 	Ins,
 	Transp,
 	Utf8Char,
+	CaseRun,
 	JsonNode,
 	BinField,
 	Frame,
@@ -134,6 +194,7 @@ impl MClass {
 			MClass::Ins => "insertion",
 			MClass::Transp => "transposition",
 			MClass::Utf8Char => "multibyte-character",
+			MClass::CaseRun => "case-length-run",
 			MClass::JsonNode => "json-node",
 			MClass::BinField => "length-field",
 			MClass::Frame => "armor-framing",
@@ -159,6 +220,13 @@ pub fn byte_class_len(c: MClass, n: usize, text: bool) -> usize {
 		MClass::Utf8Char => {
 			if text {
 				n * UTF8_CHARS.len() + (n + 1) * UTF8_CHARS.len()
+			} else {
+				0
+			}
+		}
+		MClass::CaseRun => {
+			if text {
+				case_runs(n).len()
 			} else {
 				0
 			}
@@ -209,6 +277,10 @@ pub fn byte_class_get(c: MClass, b: &[u8], text: bool, i: usize) -> Sm {
 				let j = i - n_subst;
 				Sm::InsChar(j / k, j % k)
 			}
+		}
+		MClass::CaseRun => {
+			let (p, ci, k) = case_runs(b.len())[i];
+			Sm::CaseRun(p, ci, k)
 		}
 		_ => unreachable!(),
 	}
